@@ -612,12 +612,13 @@ impl<'s, 'w, W: Write, S: Borrow<Schema>> Serializer for SchemaAwareSerializer<'
                 None,
             )?),
             Schema::Record(record) => {
-                // Structs with flattened fields are serialized as a map
+                // Structs with flattened fields are serialized as a map.
+                // `len` is the number of entries, not a number of bytes already written.
                 Ok(MapOrRecordSerializer::record(
                     self.writer,
                     record,
                     self.config,
-                    len,
+                    None,
                 ))
             }
             Schema::Union(union) => {
